@@ -98,9 +98,9 @@ func normalisedSchema(s *ast.Schema) string {
 func runC17(c *core.Ctx) {
 	const thm = "C17_* (props/C17.v); model op load on every permutation"
 	c.ReplayKnown()
-	nSchemas, nPerm := 150, 5
+	nSchemas, nPerm := 600, 6
 	if !c.Quick {
-		nSchemas, nPerm = 2500, 30
+		nSchemas, nPerm = 5000, 40
 	}
 	type base struct {
 		chunks []string
